@@ -23,7 +23,9 @@ THEOREMS = ["hint_roundtrip", "writeTo_too_long", "enc_bytes", "payload_magic_sa
             "placeAt_correct", "offset_js", "offset_js_points_at_text",
             "pending_flushed_by_write", "write_without_pending", "setPos_last_wins", "every_setpos_reported_counterexample", "printf_hint_first",
             "catch_restores", "stmt_position_exact", "alternating_positions_reported", "stmts_all_mapped",
-            "rwItems_sub", "minify_keeps_mappings", "offset_js_counterexample_before_repair"]
+            "rwItems_sub", "minify_keeps_mappings", "normalize_full", "name_resolves", "normalize_localmap",
+            "normalize_partial_before_repair", "normalize_counterexample", "normalize_counterexample_sibling",
+            "normalize_counterexample_modcache", "normalize_counterexample_panic", "normalize_prefix_roots_ok", "offset_js_counterexample_before_repair"]
 
 # the fixed go/token.FileSet shared with harness/cmd/gvh_c19/lines.go (fileSpecs): name, size, line start offsets
 FILES = [("a.go", 500, list(range(0, 500, 25))), ("pkg/b.go", 300, list(range(0, 300, 17))), ("c.go", 100, [0, 1, 2, 50, 99])]
@@ -342,6 +344,132 @@ def ctx_tie(chk, tier):
 
 
 # --------------------------------------------------------------------------------------
+# names of original files: Filter.normalizePath
+# --------------------------------------------------------------------------------------
+
+def go_clean(p):
+    """path.Clean"""
+    if p == "":
+        return "."
+    rooted = p.startswith("/")
+    out = []
+    for e in p.split("/"):
+        if e in ("", "."):
+            continue
+        if e == "..":
+            if out and out[-1] != "..":
+                out.pop()
+            elif not rooted:
+                out.append("..")
+        else:
+            out.append(e)
+    r = "/".join(out)
+    return "/" + r if rooted else (r or ".")
+
+
+def norm_first_match_real(goroot, gopath, file):
+    """True/False: is the FIRST root (code order: cleaned GOPATH entries, then GOROOT as given) that is a string prefix of
+    the file a real containment `<root>/src/...`? None: no root is a string prefix."""
+    roots = ([go_clean(e) for e in gopath.split(":")] if gopath else []) + [goroot]
+    for r in roots:
+        if file.startswith(r):
+            return r != "/" and file.startswith(r.rstrip("/") + "/src/")
+    return None
+
+
+def norm_triples(rng, n):
+    bases = ["/x/go", "/usr/local/go", "/home/u/go", "/y", "/x/g", "/opt/go1.20"]
+    sfx = ["-work", "path", "-projects/app", "code", ".d", "x", "_ws", "1"]
+    pk = ["demo", "example.org/app", "runtime", "a/b/c", "src", "h-llo"]
+    out = []
+    for _ in range(n):
+        b = rng.choice(bases)
+        goroot = rng.choice([b, b, b, b + "/", b + "/sdk/go1.20", "/usr/lib/go-1.23"])
+        ws = []
+        for _ in range(rng.choice([0, 1, 1, 1, 2, 3])):
+            k = rng.random()
+            w = (b + rng.choice(sfx) if k < 0.4 else                 # string prefix of GOROOT, not an ancestor
+                 b + "/src/ws" if k < 0.48 else b + "/ws" if k < 0.55 else   # nested inside GOROOT
+                 os.path.dirname(b) or "/" if k < 0.62 else          # GOROOT nested inside the workspace
+                 rng.choice(["/root/go", "/w", "/w/w2", "/w-2", "rel/ws", "/"]))
+            w = rng.choice([w, w, w, w + "/", w + "//", "/./" + w.lstrip("/"), w + "/../" + os.path.basename(w.rstrip("/") or "z")])
+            ws.append(w)
+        if rng.random() < 0.1:
+            ws.insert(rng.randrange(0, len(ws) + 1), "")              # empty list element
+        gopath = ":".join(ws)
+        roots = [go_clean(w) for w in ws] + [go_clean(goroot)]
+        r = rng.choice(roots)
+        f = rng.choice(pk) + "/" + rng.choice(["main.go", "f.go", "x.inc.js"])
+        k = rng.random()
+        file = (r + "/src/" + f if k < 0.4 else
+                r + "/pkg/mod/example.org/m@v1.2.3/" + f if k < 0.5 else      # module cache / toolchain below a workspace
+                r + rng.choice(sfx) + "/" + f if k < 0.62 else               # sibling whose path starts with the root string
+                r + rng.choice(sfx) + "/src/" + f if k < 0.7 else
+                r + "/" + os.path.basename(f) if k < 0.76 else               # inside the root, outside src
+                rng.choice(["/z/app/", "/tmp/gv-1/", "", "rel/"]) + f if k < 0.88 else
+                rng.choice([r + "/src/", r + "/src", r + "/a", r, r + "/", "", "/", "a.go", r + "/srcx/" + f, r + "//src/" + f]))
+        out.append((goroot, gopath, file))
+    # the configurations named in the brief
+    out += [("/x/go", "/x/go-workspace", "/x/go-workspace/src/demo/main.go"), ("/usr/local/go", "/usr/local/gopath", "/usr/local/gopath/src/x/y.go"),
+            ("/x/go-root", "/x/go", "/x/go-root/src/fmt/print.go"), ("/x/go", "/y", "/x/go-work/app/main.go"),
+            ("/x/go", "/x/go/ws", "/x/go/ws/src/p/f.go"), ("/x/ws/sdk/go", "/x/ws", "/x/ws/sdk/go/src/fmt/print.go"),
+            ("/x/go", "/y", "/y/pkg/mod/golang.org/toolchain@v0.0.1/src/fmt/print.go"), ("/x/go", "/a:/a-b:/a-b-c", "/a-b-c/src/p/f.go")]
+    return out
+
+
+def norm_tie(chk, tier):
+    rng = chk.rng
+    triples = norm_triples(rng, 6000 if tier == "thorough" else 1200)
+    raw_ops, ops = [], []
+    for goroot, gopath, file in triples:
+        args = "%s %s %s" % (hx(goroot.encode()), hx(gopath.encode()), hx(file.encode()))
+        lm = "1" if rng.random() < 0.05 else "0"
+        raw_ops.append("srcmap normraw %s %s" % (args, lm))
+        ops.append("srcmap norm %s %s" % (args, lm))
+    impl = C.run_gvh_lines(["lines"], raw_ops + ops, name="gvh_c19")
+    bad = [a for a in impl if a.startswith("harness-error") or a.startswith("bad-") or a.startswith("panic:other")]
+    if bad:
+        raise RuntimeError("gvh_c19 norm: " + bad[0])
+    model = C.run_driver(PID, raw_ops + ops)
+    spec = C.run_driver(PID, [o.replace("srcmap norm ", "srcmap normspec ", 1) for o in ops])
+    # the scheme before the repair c63a0c1 must still differ from the specification on the old witnesses (regression cases)
+    old = C.run_driver(PID, [o.replace("srcmap norm ", "srcmap normold ", 1) for o in ops])
+    chk.extra["normalizePath_triples_where_the_old_scheme_was_wrong"] = sum(1 for a, b in zip(old, spec) if a != b)
+    n = len(raw_ops)
+    # a name that differs from the specification's choice of root but still leads back to the file through one of the roots
+    # (possible only when roots are nested in one another's src) does not violate the property (`name_resolves`): such a
+    # difference stays a correspondence break (impl != model) and is not reported as a failing input
+    dec = lambda h: "" if h == "-" else bytes.fromhex(h).decode()
+
+    def resolves(o, a):
+        p = o.split()
+        if not a.startswith("name ") or p[5] != "0":
+            return False
+        goroot, gopath, file = dec(p[2]), dec(p[3]), dec(p[4])
+        name = dec(a.split()[1])
+        roots = [go_clean(e) for e in (gopath.split(":") if gopath else [])] + [go_clean(goroot)]
+        return bool(file) and any(go_clean(("" if r == "/" else r) + "/src/" + name) == go_clean(file) for r in roots)
+    spec_raw = list(model[:n])          # model = specification is proved (normalize_full)
+    for i in range(n):
+        if impl[i] != spec_raw[i] and resolves(raw_ops[i], impl[i]):
+            spec_raw[i] = impl[i]
+        if impl[n + i] != spec[i] and resolves(ops[i], impl[n + i]):
+            spec[i] = impl[n + i]
+            chk.count("norm:other-root-but-resolves")
+
+    def kind_(o, c):
+        p = o.split()
+        dec = lambda h: "" if h == "-" else bytes.fromhex(h).decode()
+        if p[5] == "1":
+            return "norm:localmap"
+        r = norm_first_match_real(dec(p[2]), dec(p[3]), dec(p[4]))
+        return "norm:" + ("no-root-matches" if r is None else "first-match-real" if r else "first-match-bare")
+    chk.compare("normalizePath-raw", raw_ops, impl[:n], model[:n], spec=spec_raw, kind=lambda o, c: "normraw:" + c.split()[0])
+    chk.compare("normalizePath-name", ops, impl[n:], model[n:], spec=spec, kind=kind_)
+    return 2 * n
+
+
+# --------------------------------------------------------------------------------------
 # program level
 # --------------------------------------------------------------------------------------
 
@@ -403,7 +531,8 @@ PANICS = ["index", "index-if", "index-return", "index-multiline", "panic", "nilm
 class ProgGen:
     """Go programs whose statements carry unique markers, with a call chain ending in a run-time panic."""
 
-    def __init__(self, rng, with_inc, blocking):
+    def __init__(self, rng, with_inc, blocking, kind=None):
+        self.force_kind = kind
         self.rng = rng
         self.lines = []
         self.marker = 1000
@@ -482,6 +611,8 @@ class ProgGen:
         rng = self.rng
         depth_chain = rng.randrange(1, 4)
         kind = rng.choice(PANICS)
+        if self.force_kind:
+            kind = self.force_kind      # the draw above is kept so that the other programs of a seed do not change
         self.kind = kind
         self.emit(0, "package main")
         self.emit(0, "")
@@ -611,6 +742,9 @@ def resolve_source(name, res, files):
         cands.append(os.path.join(C.REPO, rel[len("github.com/gopherjs/gopherjs/"):]))
     if base.startswith("gopherjs__"):
         cands.append(os.path.join(C.REPO, "compiler", "natives", "src", os.path.dirname(rel), base[len("gopherjs__"):]))
+    for gp in (res.get("gopath") or "").split(":"):
+        if gp:
+            cands.append(os.path.join(gp, "src", rel))
     cands.append(os.path.join(res["goroot"], "src", rel))
     cands.append(os.path.join(C.REPO, "compiler", "prelude", base))
     if name.startswith("/repo/"):
@@ -769,7 +903,8 @@ def prog_tie(chk, tier):
     jobs, gens = [], []
     for i in range(nprog):
         with_inc = i % 4 == 1
-        g = ProgGen(rng, with_inc, blocking=(i % 3 == 2))
+        # the witnesses of the two recorded findings are replayed in every run
+        g = ProgGen(rng, with_inc, blocking=(i % 3 == 2), kind={0: "index-closure", 1: "index-switch"}.get(i))
         src = g.build()
         files = {"main.go": src}
         if with_inc:
@@ -816,8 +951,92 @@ def prog_tie(chk, tier):
             chk.add_mismatch("programs", json.dumps({"program": job["id"], "minify": job["minify"], "localmap": job["localmap"],
                                                      "what": what, "files": job["files"]}),
                              impl=detail, spec="C19 program-level obligation '%s' holds" % what, signature=sig)
+    nl = layout_tie(chk, tier, stats)
     chk.extra["program_stats"] = dict(sorted(stats.items()))
-    return len(jobs)
+    return len(jobs) + nl
+
+
+def serve_resolves(name, res):
+    """does `name` (a "sources" entry written in the default, non-localmap mode) lead to an existing file the way
+    `gopherjs serve` and a debugger configured with the roots resolve it: <GOPATH entry>/src/name, <GOROOT>/src/name?
+    Sources that only exist inside the compiler (overlays `gopherjs__*.go`, the embedded js / nosync packages, the prelude)
+    are looked up in the repository instead. The main package of a module-mode project is named by its base name."""
+    rel = name.lstrip("/")
+    base = os.path.basename(name)
+    roots = [g for g in (res.get("gopath") or "").split(":") if g] + [res["goroot"]]
+    if any(os.path.isfile(os.path.join(r, "src", rel)) for r in roots):
+        return True
+    if rel.startswith("github.com/gopherjs/gopherjs/"):
+        return os.path.isfile(os.path.join(C.REPO, rel[len("github.com/gopherjs/gopherjs/"):]))
+    if base.startswith("gopherjs__"):
+        return os.path.isfile(os.path.join(C.REPO, "compiler", "natives", "src", os.path.dirname(rel), base[len("gopherjs__"):]))
+    if name == base:
+        return os.path.isfile(os.path.join(res["dir"], base)) or os.path.isfile(os.path.join(C.REPO, "compiler", "prelude", base))
+    return False
+
+
+def layout_tie(chk, tier, stats):
+    """projects in directory layouts where the roots are string prefixes of one another: GOROOT = <scratch>/go (a symlink to
+    the real GOROOT), GOPATH = <scratch>/go-workspace; a GOPATH-mode project below $GOPATH/src and a module-mode project in
+    <scratch>/go-projects/app (a sibling whose path starts with the GOROOT string). GOPHERJS_GOROOT is read when the harness
+    process starts, hence a separate harness run."""
+    import shutil
+    import subprocess
+    rng = chk.rng
+    sc = C.scratch("gvc19l")
+    n = 0
+    try:
+        goroot = subprocess.run(["go", "env", "GOROOT"], capture_output=True, text=True, env=dict(C.env(), GOTOOLCHAIN="local")).stdout.strip()
+        os.symlink(goroot, os.path.join(sc, "go"))
+        gopath = os.path.join(sc, "go-workspace")
+        layouts = [("gopath", os.path.join(gopath, "src", "demo"), {"GO111MODULE": "off"}, None),
+                   ("sibling-module", os.path.join(sc, "go-projects", "app"), {}, "module gvprog\n\ngo 1.20\n")]
+        for lname, d, envx, gomod in layouts:
+            jobs, gens = [], []
+            for k in range(2 if tier == "thorough" else 1):
+                g = ProgGen(rng, False, blocking=False)
+                src = g.build()
+                dk = d + (str(k) if k else "")
+                os.makedirs(dk, exist_ok=True)
+                open(os.path.join(dk, "main.go"), "w").write(src)
+                if gomod:
+                    open(os.path.join(dk, "go.mod"), "w").write(gomod)
+                for minify in (False, True):
+                    jobs.append({"id": "%s%d%s" % (lname.replace("-", ""), k, "m" if minify else "p"), "files": {"main.go": src}, "minify": minify,
+                                 "localmap": False, "run": True, "timeout": 120, "dir": dk})
+                    gens.append(g)
+            env = dict({"NODE_OPTIONS": "--stack-trace-limit=100", "GOPHERJS_GOROOT": os.path.join(sc, "go"), "GOPATH": gopath,
+                        "VERIF_SCRATCH": sc}, **envx)
+            p = C.run_gvh(["prog", "-j", "2"], [json.dumps(j) for j in jobs], name="gvh_c19", extra_env=env)
+            if p.returncode != 0:
+                raise RuntimeError("gvh_c19 prog (layout %s) failed: %s" % (lname, p.stderr[-3000:]))
+            results = [json.loads(l) for l in p.stdout.split("\n") if l.strip()]
+            for job, g, res in zip(jobs, gens, results):
+                if res.get("err"):
+                    raise RuntimeError("layout %s: program %s does not compile: %s" % (lname, job["id"], res["err"]))
+                if res["goroot"] != os.path.join(sc, "go"):
+                    raise RuntimeError("layout %s: the harness did not pick up GOPHERJS_GOROOT (%s)" % (lname, res["goroot"]))
+                fails = check_program(chk, job, g, res, stats)
+                m = json.loads(res["map"])
+                for sname in m["sources"]:
+                    stats["layout:%s:sources" % lname] += 1
+                    if not serve_resolves(sname, res):
+                        fails.append((None, "source-not-resolvable",
+                                      "sources entry %r names no file under <GOPATH>/src or <GOROOT>/src (GOROOT=%s GOPATH=%s project=%s)" % (
+                                          sname, res["goroot"], res.get("gopath"), job["dir"])))
+                n += 1
+                chk.add_case("programs", job["id"] + job["files"]["main.go"], kindkey="prog:layout:%s:%s" % (lname, "minify" if job["minify"] else "plain"))
+                seen = set()
+                for sig, what, detail in fails:
+                    if (sig, what) in seen:
+                        continue
+                    seen.add((sig, what))
+                    chk.add_mismatch("programs", json.dumps({"program": job["id"], "layout": lname, "goroot": res["goroot"], "gopath": res.get("gopath"),
+                                                             "dir": job["dir"], "minify": job["minify"], "what": what, "files": job["files"]}),
+                                     impl=detail, spec="C19 program-level obligation '%s' holds" % what, signature=sig)
+    finally:
+        shutil.rmtree(sc, ignore_errors=True)
+    return n
 
 
 def run(tier, seed):
@@ -863,11 +1082,13 @@ def run(tier, seed):
     lap("js tie")
     n3 = ctx_tie(chk, tier)
     lap("ctx tie")
+    n5 = norm_tie(chk, tier)
+    lap("normalizePath tie")
     n4 = prog_tie(chk, tier)
     lap("program tie")
     chk.extra["phase_seconds"] = phases
     C.log("[C19] phases: %s" % phases)
-    chk.extra["ops"] = {"filter": n1, "js": n2, "ctx": n3, "program builds": n4}
+    chk.extra["ops"] = {"filter": n1, "js": n2, "ctx": n3, "normalizePath": n5, "program builds": n4}
     chk.extra["exhaustive"] = False
     chk.extra["exhaustive_subspace"] = "all streams of <= 3 items over a 6-item alphabet x all admissible chunkings (<= 64 each)" if tier == "thorough" \
         else "first 43 streams (<= 2 items) of the thorough sub-space x all admissible chunkings"
